@@ -764,7 +764,7 @@ def run_cookie_shard(shard, rep):
 # ---------------------------------------------------------------------------
 # Part C: URI-bearing helpers
 # ---------------------------------------------------------------------------
-URI_ALPHABET = ('a', ' ', '\xe9', '\U0001F600', '/', '?', '#')
+URI_ALPHABET = ('a', ' ', '\xe9', '\U0001F600', '/', '?', '#', '\t')   # TAB: a byte below 0x10 (two-digit escapes!)
 PERCENT_CASES = ('%20', 'a%2Fb', '%C3%A9', '%c3%a9x', '%', 'a%', '%2', '%zz', ' %20', '%20 ', '\xe9%41', '100%', '%%41')
 
 
